@@ -162,6 +162,14 @@ theorem addMetric_good (s : State) (name : Name) (v : List Val) (h : HasGood s) 
     · simp only []; rw [sget_sset_other _ _ _ _ hn]; exact h
   · exact h
 
+/-- whatever every `addMetric` preserves, `addFromInt` preserves -/
+theorem addFromInt_preserves (P : State → Prop) (s : State) (name src : Name) (hs : P s)
+    (hadd : ∀ v, P (addMetric s name v).1) : P (addFromInt s name src).1 := by
+  unfold addFromInt
+  split
+  · exact hs
+  · exact hadd _
+
 theorem addMetric_ok (s : State) (name : Name) (v : List Val) (hv : v.length = s.K) :
     addMetric s name v = ({ s with metrics := sset s.metrics name v }, .ok .done) := by
   simp [addMetric, hv]
@@ -285,6 +293,7 @@ theorem step_inv (F : List Char → Option Rat) (s : State) (op : Op) (h : Inv s
   cases op with
   | computeMetric name vals f mode => exact computeMetric_preserves Inv _ _ _ _ _ h (fun v => addMetric_inv _ _ _ h)
   | addMetric name vals => exact addMetric_inv _ _ _ h
+  | addFromInt name src => exact addFromInt_preserves Inv _ _ _ h (fun _ => addMetric_inv _ _ _ h)
   | computeTimings => exact computeTimings_inv s h
   | pickSubset conds => exact pickSubset_inv F s conds h
   | computeChainMetric name vals f asInt => exact computeChainMetric_inv _ _ _ _ _ h
